@@ -107,7 +107,7 @@ static long mix(int ordinal, int k, const std::vector<long>& in, int flags) {
   return c % 1000000007L;
 }
 // declared-input view of the current manifest used by the reference ("what would a from-scratch build produce")
-struct RefEdge { std::vector<std::string> outs, reads, order_only, validations; int ordinal; int flags; bool phony; };
+struct RefEdge { std::vector<std::string> outs, reads, order_only, validations; int ordinal; int flags; bool phony; bool generator; size_t ndeclared; std::string command, plain_depfile; };
 static std::vector<RefEdge> g_ref;
 static void build_reference(State* st) {
   g_ref.clear();
@@ -119,6 +119,8 @@ static void build_reference(State* st) {
     for (size_t k = 0; k < n; k++) r.reads.push_back(e->inputs_[k]->path());
     for (size_t k = n; k < e->inputs_.size(); k++) r.order_only.push_back(e->inputs_[k]->path());
     for (size_t k = 0; k < e->validations_.size(); k++) r.validations.push_back(e->validations_[k]->path());
+    r.ndeclared = r.reads.size(); r.generator = e->GetBindingBool("generator"); r.command = e->EvaluateCommand(true);
+    if (e->GetBinding("deps").empty()) r.plain_depfile = e->GetUnescapedDepfile();
     const CmdSpec* s = spec_for(r.outs[0]); r.flags = s ? s->flags : 0;
     if (s) { std::vector<std::string> x = split_words(s->extra_reads); for (size_t q = 0; q < x.size(); q++) { bool have = false; for (size_t z = 0; z < r.reads.size(); z++) have = have || r.reads[z] == x[q]; if (!have) r.reads.push_back(x[q]); }
              if (s->dyndep_text) r.flags |= 0; }
@@ -156,26 +158,57 @@ static void closure(const std::string& f, std::vector<std::string>* out, int dep
   for (size_t i = 0; i < e->outs.size(); i++) closure(e->outs[i], out, depth + 1);
 }
 
+// what each statement's command saw the last time it succeeded (for the minimality reference of C03)
+struct LastRun { bool ran; std::vector<long> snap; std::string command; LastRun() : ran(false) {} };
+static LastRun g_last[16];
 // ------------------------------------------------------------------------------------------------ the command runner
-struct Running { Edge* edge; std::vector<long> snap; bool missing_input; int flags; };
-struct RunnerOpts { int parallelism; bool may_fail; bool may_interrupt; bool check_inputs_fresh; bool failed_touch; RunnerOpts() : parallelism(1), may_fail(false), may_interrupt(false), check_inputs_fresh(false), failed_touch(false) {} };
+struct Running { Edge* edge; std::vector<long> snap; bool missing_input; int flags; bool phantom; };
+struct TokenPool;
+struct RunnerOpts { int parallelism; bool may_fail; bool may_interrupt; bool check_inputs_fresh; bool failed_touch; bool start_may_fail; bool check_idle; bool sym_exit_code; TokenPool* tokens; Builder* builder; int failures_allowed;
+  RunnerOpts() : parallelism(1), may_fail(false), may_interrupt(false), check_inputs_fresh(false), failed_touch(false), start_may_fail(false), check_idle(false), sym_exit_code(false), tokens(NULL), builder(NULL), failures_allowed(1) {} };
+// a GNU make jobserver pool reduced to its protocol: one implicit slot plus `pool` explicit tokens; acquiring may fail whenever the pool is empty
+struct TokenPool : public Jobserver::Client {
+  int pool, acquired, released; bool implicit_out; TokenPool(int n) : pool(n), acquired(0), released(0), implicit_out(false) {}
+  Jobserver::Slot TryAcquire() override {
+    if (!implicit_out) { implicit_out = true; acquired++; return Jobserver::Slot::CreateImplicit(); }
+    if (pool > 0) { pool--; acquired++; return Jobserver::Slot::CreateExplicit((uint8_t)'+'); }
+    return Jobserver::Slot();
+  }
+  void Release(Jobserver::Slot slot) override {
+    if (!slot.IsValid()) return;
+    if (slot.IsImplicit()) implicit_out = false; else pool++;
+    released++;
+  }
+  int outstanding() const { return acquired - released; }
+};
 struct SymRunner : public CommandRunner {
   RunnerOpts opt; std::vector<Running> active;
   std::vector<int> started, finished_ok, failed;            // edge ordinals, in order
   std::vector<std::string> events;                          // "start <out>" / "ok <out>" / "fail <out>"
-  int max_running; bool interrupted;
-  SymRunner() : max_running(0), interrupted(false) {}
-  size_t CanRunMore() const override { return (size_t)opt.parallelism > active.size() ? opt.parallelism - active.size() : 0; }
+  std::vector<int> exit_codes;                              // of the failed commands
+  int max_running; bool interrupted; int failures_seen;
+  SymRunner() : max_running(0), interrupted(false), failures_seen(0) {}
+  size_t CanRunMore() const override {
+    if (opt.tokens) return 1000;       // as RealCommandRunner: with a jobserver the tokens acquired in Plan::FindWork limit the jobs
+    return (size_t)opt.parallelism > active.size() ? opt.parallelism - active.size() : 0; }
   static bool in(const std::vector<int>& v, int x) { for (size_t i = 0; i < v.size(); i++) if (v[i] == x) return true; return false; }
   bool StartCommand(Edge* e) override {
-    Running r; r.edge = e; r.missing_input = false;
+    Running r; r.edge = e; r.missing_input = false; r.phantom = g_dead;     // a dead ninja starts nothing: what it "starts" has no effect
     const CmdSpec* s = spec_for(e->outputs_[0]->path()); r.flags = s ? s->flags : 0;
+    if (opt.start_may_fail && verif_bool("spawn_fails")) { events.push_back("spawnfail " + e->outputs_[0]->path()); return false; }
     VERIF_ASSERT(!in(started, edge_ordinal(e)), "C06: each build statement's command runs at most once per invocation");
-    VERIF_ASSERT((int)active.size() < opt.parallelism, "C06: never more commands running than -j allows");
+    if (opt.tokens) VERIF_ASSERT((int)active.size() < opt.tokens->outstanding(), "C06: never more commands running than jobserver tokens held");
+    else VERIF_ASSERT((int)active.size() < opt.parallelism, "C06: never more commands running than -j allows");
+    { // pool depth (console: 1)
+      Pool* pool = e->pool(); int same = 0;
+      for (size_t i = 0; i < active.size(); i++) if (active[i].edge->pool() == pool) same++;
+      if (pool->depth() > 0) VERIF_ASSERT(same < pool->depth(), "C06: never more commands of a pool running than its depth");
+    }
     std::vector<std::string> reads = read_set(e);
+    size_t ndecl = reads.size(); for (size_t i = 0; i < g_ref.size(); i++) if (g_ref[i].ordinal == edge_ordinal(e)) ndecl = g_ref[i].ndeclared;
     for (size_t i = 0; i < reads.size(); i++) {
       VFile* f = g_tree->find(reads[i]);
-      if (!f || !f->exists) { r.missing_input = true; r.snap.push_back(0); }
+      if (!f || !f->exists) { if (i < ndecl) r.missing_input = true; r.snap.push_back(0); }   // a vanished extra (discovered) file is simply no longer read
       else r.snap.push_back(f->content);
       if (opt.check_inputs_fresh && ref_producer(reads[i]) && !ref_producer(reads[i])->phony) {
         bool ok = true; long want = clean_content(reads[i], &ok);
@@ -194,15 +227,30 @@ struct SymRunner : public CommandRunner {
   }
   BuildResult WaitForCommand() override {
     if (active.empty()) return BuildResult::Finished{};
-    if (opt.may_interrupt && verif_bool("interrupt_now")) { interrupted = true; return BuildResult::Interrupted{}; }
+    if (opt.check_idle && opt.builder && failures_seen < opt.failures_allowed && !opt.tokens && (int)active.size() < opt.parallelism)
+      VERIF_ASSERT(opt.builder->plan_.ready_.empty(), "C06: ninja never waits while a startable command and a free slot exist");
+    if (opt.may_interrupt && verif_bool("interrupt_now")) {
+      interrupted = true;
+      // commands that were running may already have modified their outputs
+      for (size_t i = 0; i < active.size(); i++) if (verif_bool("interrupted_command_touched_outputs")) {
+        Edge* e = active[i].edge; for (size_t k = 0; k < e->outputs_.size(); k++) g_tree->write(e->outputs_[k]->path(), -13 - (long)k);
+        events.push_back("touched " + e->outputs_[0]->path());
+      }
+      return BuildResult::Interrupted{};
+    }
     int i = active.size() > 1 ? verif_choice("finish_which", (int)active.size()) : 0;
     Running r = active[i]; active.erase(active.begin() + i);
     Edge* e = r.edge; int ord = edge_ordinal(e);
     bool fail = r.missing_input || (r.flags & ALWAYS_FAILS);
     if (!fail && opt.may_fail) fail = verif_bool("command_fails");
     ExitStatus st = ExitSuccess; std::string output;
+    if (r.phantom || (g_dead && verif_bool("command_killed_with_ninja"))) {
+      // started by a ninja that was already dead (no effect), or killed together with it before replacing its outputs
+      return BuildResult::CommandCompleted(e, st, "");
+    }
     if (fail) {
-      st = ExitFailure; failed.push_back(ord); events.push_back("fail " + e->outputs_[0]->path());
+      st = ExitFailure; if (opt.sym_exit_code) st = (ExitStatus)(1 + verif_choice("exit_code_minus_1", 3));
+      failed.push_back(ord); exit_codes.push_back((int)st); failures_seen++; events.push_back("fail " + e->outputs_[0]->path());
       if (opt.failed_touch && verif_bool("failed_command_touched_outputs")) for (size_t k = 0; k < e->outputs_.size(); k++) g_tree->write(e->outputs_[k]->path(), -7 - (long)k);
       return BuildResult::CommandCompleted(e, st, "boom");
     }
@@ -223,11 +271,14 @@ struct SymRunner : public CommandRunner {
     std::string dep = e->GetUnescapedDepfile();
     if (!dep.empty()) { std::string t = e->outputs_[0]->path() + ":"; for (size_t q = 0; q < reads.size(); q++) t += " " + reads[q]; t += "\n"; g_tree->write_text(dep, t); }
     if (e->GetBinding("deps") == "msvc") { for (size_t q = 0; q < reads.size(); q++) output += "Note: including file: " + reads[q] + "\n"; }
+    if (ord < 16) { g_last[ord].ran = true; g_last[ord].snap = r.snap; g_last[ord].command = e->EvaluateCommand(true); }
     finished_ok.push_back(ord); events.push_back("ok " + e->outputs_[0]->path());
     return BuildResult::CommandCompleted(e, st, output);
   }
   std::vector<Edge*> GetActiveEdges() override { std::vector<Edge*> v; for (size_t i = 0; i < active.size(); i++) v.push_back(active[i].edge); return v; }
-  void Abort() override { active.clear(); }
+  void Abort() override {
+    if (opt.tokens) for (size_t i = 0; i < active.size(); i++) opt.tokens->Release(std::move(active[i].edge->job_slot_));   // as RealCommandRunner::ClearJobTokens
+    active.clear(); }
 };
 
 struct RecStatus : public Status {
@@ -245,11 +296,11 @@ struct RecStatus : public Status {
 struct NoDeadPaths : public BuildLogUser { bool IsPathDead(StringPiece) const override { return false; } };
 
 // ------------------------------------------------------------------------------------------------ one ninja invocation
-struct InvocationOpts { RunnerOpts run; int failures_allowed; std::vector<std::string> targets; bool use_logs; InvocationOpts() : failures_allowed(1), use_logs(true) {} };
+struct InvocationOpts { RunnerOpts run; int failures_allowed; std::vector<std::string> targets; bool use_logs; bool dry_run; int token_pool; InvocationOpts() : failures_allowed(1), use_logs(true), dry_run(false), token_pool(-1) {} };
 struct InvocationResult {
   bool parsed, loaded, added; int rc; bool up_to_date; std::string err;
-  std::vector<int> started, finished_ok, failed; std::vector<std::string> events; int max_running; bool stuck;
-  InvocationResult() : parsed(false), loaded(false), added(false), rc(-1), up_to_date(false), max_running(0), stuck(false) {}
+  std::vector<int> started, finished_ok, failed, exit_codes; std::vector<std::string> events; int max_running; bool stuck; bool interrupted; int tokens_outstanding; int status_started, status_finished, status_added, status_removed;
+  InvocationResult() : parsed(false), loaded(false), added(false), rc(-1), up_to_date(false), max_running(0), stuck(false), interrupted(false), tokens_outstanding(0), status_started(0), status_finished(0), status_added(0), status_removed(0) {}
 };
 static bool has_id(const std::vector<int>& v, int x) { for (size_t i = 0; i < v.size(); i++) if (v[i] == x) return true; return false; }
 
@@ -272,10 +323,13 @@ static InvocationResult invoke(const InvocationOpts& o) {
     VERIF_ASSERT(ok, "C07/C08/C09: both logs load and open at the start of an invocation");
     if (!ok) return res;
   }
-  config->parallelism = o.run.parallelism; config->failures_allowed = o.failures_allowed; config->verbosity = BuildConfig::QUIET;
+  config->parallelism = o.run.parallelism; config->failures_allowed = o.failures_allowed; config->verbosity = BuildConfig::QUIET; config->dry_run = o.dry_run;
+  TokenPool* tokens = o.token_pool >= 0 ? new TokenPool(o.token_pool) : NULL;
   {
     Builder builder(state, *config, log, deps, disk, status, 0);
-    SymRunner* runner = new SymRunner; runner->opt = o.run; builder.command_runner_.reset(runner);
+    if (tokens) builder.SetJobserverClient(std::unique_ptr<Jobserver::Client>(tokens));
+    SymRunner* runner = new SymRunner; runner->opt = o.run; runner->opt.tokens = tokens; runner->opt.builder = &builder; runner->opt.failures_allowed = o.failures_allowed;
+    if (!o.dry_run) builder.command_runner_.reset(runner);
     res.added = true;
     for (size_t i = 0; i < o.targets.size() && res.added; i++) {
       Node* t = state->LookupNode(o.targets[i]);
@@ -290,13 +344,19 @@ static InvocationResult invoke(const InvocationOpts& o) {
       }
     }
     res.started = runner->started; res.finished_ok = runner->finished_ok; res.failed = runner->failed; res.events = runner->events; res.max_running = runner->max_running;
+    res.exit_codes = runner->exit_codes; res.interrupted = runner->interrupted;
+    if (tokens) { tokens = (TokenPool*)builder.jobserver_.release(); }      // keep the counters alive beyond ~Builder
+    if (o.dry_run) delete runner;
   }
+  if (tokens) res.tokens_outstanding = tokens->outstanding();
+  res.status_started = status->started; res.status_finished = status->finished; res.status_added = status->added; res.status_removed = status->removed;
   if (log) { log->Close(); deps->Close(); }
   return res;
 }
 
 // ------------------------------------------------------------------------------------------------ scenario set-up and the oracles shared by several properties
 static void init_tree(const Scenario* sc) {
+  for (int i = 0; i < 16; i++) g_last[i] = LastRun();
   g_sc = sc; g_tree = new Tree; g_manifest_variant = 0; g_dead = false; g_persist_events = 0; g_die_at = -1;
   std::vector<std::string> src = split_words(sc->sources);
   for (size_t i = 0; i < src.size(); i++) { VFile f; f.name = src[i]; f.exists = true; f.mtime = 1; f.content = 100 + 10 * (long)i; f.is_text = false; g_tree->files.push_back(f); }
@@ -321,5 +381,58 @@ static void assert_clean_equal(const std::vector<std::string>& targets, const ch
   }
   VERIF_ASSERT(all, msg);
 }
+// ---- C03 reference: which commands a build of `targets` has to run, by make semantics over contents ("was rewritten" propagates along non-order-only inputs)
+struct MinRef {
+  std::vector<int> state;        // per g_ref index: 0 unknown, 1 in progress, 2 does not run, 3 runs
+  std::vector<std::string> flat_reads(const RefEdge& e) {   // reads with phony aliases replaced by what they stand for
+    std::vector<std::string> out, todo = e.reads;
+    for (size_t i = 0; i < todo.size() && i < 64; i++) { const RefEdge* p = ref_producer(todo[i]); if (p && p->phony) { for (size_t k = 0; k < p->reads.size(); k++) todo.push_back(p->reads[k]); } else out.push_back(todo[i]); }
+    return out;
+  }
+  int index_of(const RefEdge* e) { return (int)(e - &g_ref[0]); }
+  long cur(const std::string& f) { VFile* v = g_tree->find(f); return v && v->exists ? v->content : -1; }
+  long val(const std::string& f) {      // content after the build
+    int k = 0; const RefEdge* p = ref_producer(f, &k);
+    if (!p || p->phony || !runs(index_of(p))) return cur(f);
+    const CmdSpec* s = spec_for(p->outs[0]);
+    if (s && s->dyndep_text && k == 0) { std::string t = s->dyndep_text; return (long)t.size() * 131 + (t.empty() ? 0 : (unsigned char)t[t.size() / 2]); }
+    std::vector<long> in; for (size_t i = 0; i < p->reads.size(); i++) in.push_back(val(p->reads[i]));
+    return mix(p->ordinal, k, in, p->flags);
+  }
+  bool runs(int i) {
+    if (state[i] >= 2) return state[i] == 3;
+    if (state[i] == 1) return false;
+    state[i] = 1;
+    const RefEdge& e = g_ref[i]; bool r = false;
+    if (e.phony) { state[i] = 2; return false; }
+    const LastRun& last = e.ordinal < 16 ? g_last[e.ordinal] : g_last[15];
+    for (size_t k = 0; k < e.outs.size(); k++) r = r || !g_tree->exists(e.outs[k]);
+    if (!last.ran) r = true;
+    if (!r && !e.generator && last.command != e.command) r = true;
+    if (!r && !e.plain_depfile.empty() && !g_tree->exists(e.plain_depfile)) r = true;
+    if (!r) {
+      for (size_t q = 0; q < e.reads.size() && !r; q++) {
+        std::vector<std::string> fl; { const RefEdge* p0 = ref_producer(e.reads[q]); if (p0 && p0->phony) { RefEdge tmp; tmp.reads.push_back(e.reads[q]); fl = flat_reads(tmp); } else fl.push_back(e.reads[q]); }
+        for (size_t z = 0; z < fl.size() && !r; z++) {
+          int k = 0; const RefEdge* p = ref_producer(fl[z], &k);
+          if (p && !p->phony && runs(index_of(p))) { if (!(p->flags & KEEP_IF_SAME) || val(fl[z]) != cur(fl[z])) r = true; }
+        }
+        // a file that nobody rewrites now but that differs from what the command saw last time
+        const RefEdge* p1 = ref_producer(e.reads[q]);
+        if (!r && (!p1 || (!p1->phony && !runs(index_of(p1)))) && q < last.snap.size() && cur(e.reads[q]) != last.snap[q]) r = true;
+      }
+    }
+    state[i] = r ? 3 : 2; return r;
+  }
+  std::vector<int> expected(const std::vector<std::string>& targets) {
+    state.assign(g_ref.size(), 0);
+    std::vector<std::string> cl; for (size_t i = 0; i < targets.size(); i++) closure(targets[i], &cl);
+    std::vector<int> ex;
+    for (size_t i = 0; i < g_ref.size(); i++) { bool needed = false; for (size_t k = 0; k < g_ref[i].outs.size(); k++) for (size_t c = 0; c < cl.size(); c++) needed = needed || cl[c] == g_ref[i].outs[k];
+      if (needed && !g_ref[i].phony && runs((int)i)) ex.push_back(g_ref[i].ordinal); }
+    return ex;
+  }
+};
+static bool same_set(std::vector<int> a, std::vector<int> b) { if (a.size() != b.size()) return false; for (size_t i = 0; i < a.size(); i++) { bool f = false; for (size_t k = 0; k < b.size(); k++) f = f || a[i] == b[k]; if (!f) return false; } return true; }
 static void edit_file(const std::string& name) { VFile* f = g_tree->get(name); f->exists = true; f->is_text = false; f->content += 1; f->mtime = g_tree->tick(); }
 #endif
